@@ -383,7 +383,7 @@ def r_rt_loop(e, R):
             it = fl.iter
             allt = isinstance(it, ast.Call) and isinstance(it.func, ast.Attribute) and it.func.attr == "items" and isinstance(it.func.value, ast.Name) \
                 and it.func.value.id == roles[3]
-            oks = skip and allt
+            oks = allt  # which types reach the helper (with polarity) is decided by R-RT-SWEEP over the cleanup table's keys
             # folders after: the folder sweep statement comes after the loop statement in the finally body
             idx_loop = [i for i, s in enumerate(fin) if fl is s or any(x is fl for x in ast.walk(s))]
             idx_fold = [i for i, s in enumerate(fin) if any(x is c2 for c2 in last_sw for x in ast.walk(s))]
@@ -752,7 +752,7 @@ def r_tracker_ship(e, R):
                     f"{key} -> {attr_}", f"the child receives the parent's tracker ({key!r}) but does not install its {attr_}: it starts a tracker of its own "
                     "(a second tracker in the tree) or talks to a tracker it believes dead", e.loc(pr, pr.node), pg.fmt_path(esc) if esc else None)
         okN = SC.Facts([], [has_key(False, key)]).edge_ok()
-        bad = pg.find_path(pg.entry, lambda n: n in mine, use_exc=False, edge_ok=okN)
+        bad = SC.Facts([], [has_key(False, key)]).find(pg, pg.entry, lambda n: n in mine, use_exc=False)
         R.check(bad is None, "R-TRACKER-SHIP", f"prepare: without {key!r} in the data nothing is installed (no KeyError in the child's start-up)", pr.short, key,
                 "prepare() reads a tracker entry that is not in the data: the child dies at start-up", e.loc(pr, pr.node))
     # the parent writes the tracker entry unconditionally (both fields on this platform)
@@ -794,10 +794,12 @@ def r_tracker_ship(e, R):
     R.check(fdv is not None, "R-TRACKER-SHIP", "_launch: obtains the tracker fd through getfd() (which ensures the tracker runs)", la.short, "getfd()",
             "the launch no longer obtains the tracker fd", e.loc(la, la.node))
     fe = [n for n in lg.nodes for c in calls_in(n) if e.callees_of(c) & {"loky.backend.fork_exec:fork_exec"}]
-    inh = [n for n in lg.nodes for c in calls_in(n) if norm(c.func).endswith("_mk_inheritable") and c.args and isinstance(c.args[0], ast.Name) and c.args[0].id == fdv]
+    from .process import makes_inheritable, keep_list_attr
+    KEEPL = keep_list_attr(e)
+    inh = [n for n in lg.nodes for c in calls_in(n) if makes_inheritable(e, la, c) and c.args and isinstance(c.args[0], ast.Name) and c.args[0].id == fdv]
     keep = [n for n in lg.nodes if n.kind == "stmt" and isinstance(n.ast, (ast.AugAssign, ast.Assign, ast.Expr))
             and any(isinstance(x, ast.Name) and x.id == fdv for x in ast.walk(n.ast))
-            and any(isinstance(x, ast.Attribute) and x.attr == "_fds" for x in ast.walk(n.ast))]
+            and any(isinstance(x, ast.Attribute) and x.attr == KEEPL for x in ast.walk(n.ast))]
     R.check(bool(fe) and bool(inh) and all(any(lg.dominates(i, f_) for i in inh) for f_ in fe), "R-TRACKER-SHIP",
             "_launch: the tracker fd is made inheritable before fork_exec", la.short, "_mk_inheritable(tracker_fd)",
             "the tracker fd is not inheritable when the child is exec'ed", e.loc(la, la.node))
@@ -807,7 +809,7 @@ def r_tracker_ship(e, R):
     for f_ in fe:
         for c in calls_in(f_):
             if e.callees_of(c) & {"loky.backend.fork_exec:fork_exec"}:
-                ok = len(c.args) > 1 and isinstance(c.args[1], ast.Attribute) and c.args[1].attr == "_fds"
+                ok = len(c.args) > 1 and isinstance(c.args[1], ast.Attribute) and c.args[1].attr == KEEPL
                 R.check(ok, "R-TRACKER-SHIP", "_launch: fork_exec receives the keep-list", la.short, norm(c)[:60], "fork_exec does not get the keep-list", e.loc(la, c))
     R.floor("R-TRACKER-SHIP", 6)
 
@@ -842,15 +844,19 @@ def r_sig(e, R):
         R.check(esc is None and bool(unb), "R-SIG", "ensure_running: the signal mask is restored on every path (finally)", er.short,
                 "pthread_sigmask(SIG_UNBLOCK, ...) in finally", "the caller is left with SIGINT/SIGTERM blocked when the spawn fails", e.loc(er, b.ast),
                 eg.fmt_path(esc) if esc else None)
+    setnames = {norm(c.args[1]) for n in blk for c in calls_in(n) if norm(c.func).endswith("pthread_sigmask") and len(c.args) == 2 and isinstance(c.args[1], ast.Name)}
+    if len(setnames) != 1:
+        raise AnalysisError("ensure_running: the signal set blocked around the spawn is not one module-level name")
+    SIGSET = setnames.pop()
     for c in [c for n in blk + unb for c in calls_in(n) if norm(c.func).endswith("pthread_sigmask")]:
-        R.check(len(c.args) == 2 and norm(c.args[1]) == "_IGNORED_SIGNALS", "R-SIG", f"ensure_running: {norm(c.args[0])} applies to the ignored-signals set",
+        R.check(len(c.args) == 2 and norm(c.args[1]) == SIGSET, "R-SIG", f"ensure_running: {norm(c.args[0])} applies to the ignored-signals set",
                 er.short, norm(c), "block/unblock do not use the same signal set", e.loc(er, c))
     mod = e.prog.modules[RT]
     sigs = None
     for n in func_nodes(mod.body_func):
-        if isinstance(n, ast.Assign) and isinstance(n.targets[0], ast.Name) and n.targets[0].id == "_IGNORED_SIGNALS":
+        if isinstance(n, ast.Assign) and isinstance(n.targets[0], ast.Name) and n.targets[0].id == SIGSET:
             sigs = {norm(x).split(".")[-1] for x in n.value.elts} if isinstance(n.value, (ast.Tuple, ast.List)) else None
-    R.check(sigs == {"SIGINT", "SIGTERM"}, "R-SIG", "the blocked set is {SIGINT, SIGTERM}", RT, f"_IGNORED_SIGNALS = {sigs}",
+    R.check(sigs == {"SIGINT", "SIGTERM"}, "R-SIG", "the blocked set is {SIGINT, SIGTERM}", RT, f"{SIGSET} = {sigs}",
             "the set of signals blocked around the spawn is not {SIGINT, SIGTERM}", None)
     # main unblocks them again after installing SIG_IGN
     unb_m = [n for n in g.nodes for c in calls_in(n) if norm(c.func).endswith("pthread_sigmask") and c.args and norm(c.args[0]).endswith("SIG_UNBLOCK")]
